@@ -34,6 +34,8 @@ EXPLANATION = (
     "R7 (added) every container the exporter reads and the backend fills through `self.<attr>` (declaration table, op-call table, "
     "code lines, imports, helper functions) is bound per instance in an __init__ of FortranBackend's MRO; the shared lint "
     "class_level_mutable_state is armed for the whole backend class family.  "
+    "R8 (added) the values of STPNT (`args(k) = v`, `y(i) = v`) and of the c.* files are printed value-preservingly (str/repr/plain "
+    "hole/>= 17 significant digits/e->d swap); fewer digits, round(), stripping or replacing digits is a violation.  "
     "Extracted private emitters are followed: a method that receives the slot list (and the sequence it was computed for) or the "
     "state list is analysed like _generate_auto_files itself; the reordering may be a returned expression of a helper; slots/indices "
     "of unknown provenance end in ANALYSIS-ERROR, not in a violation.  "
@@ -1992,6 +1994,56 @@ def r7_export_state_is_per_instance(ctx, rid):
                       loc=f"{getattr(c.module, 'rel', '?')}:{st.lineno}")
 
 
+def r8_values_printed_value_preservingly(ctx, rid):
+    """Numbers written into the generated auto-07p artefacts must read back as the same binary64 value: the initial parameter values
+    `args(k) = <v>` and the starting state `y(i) = <v>` of STPNT, and the constants of the c.* files.  The value hole of every such
+    template is followed through the backend's value printer (inlined, or judged by what it returns); accepted spellings are
+    str / repr / a plain f-string hole / a format spec with >= 17 significant digits (`.17g`, `.16e`) / an e->d exponent swap; a
+    format spec with fewer digits (or `:e` / `:f` / `:g` without a sufficient precision), round(), character stripping / slicing /
+    replacing are violations; anything else is not understood."""
+    from .c12 import text_value_preservation, templates_spliced
+    gen = _m(ctx, "_generate_auto_files")
+    S = Scope(ctx, gen)
+    n = 0
+    for node, text, holes in templates_spliced(S, gen.node):
+        m = re.match(r"^\s*(args|y)\(⟨\d+⟩\)\s*=\s*⟨(\d+)⟩", text or "")
+        if not m:
+            continue
+        n += 1
+        hole = holes[int(m.group(2))]
+        what = "parameter value" if m.group(1) == "args" else "initial state value"
+        shown = text.replace("⟨", "{").replace("⟩", "}")
+        label = f"STPNT {what} is printed value-preservingly"
+        ok, why = text_value_preservation(ctx, S, hole)
+        if ok is None:
+            raise AnalysisError(f"{rid}: {gen.qual}: `{shown}`: cannot judge how the {what} {why} is printed (unrecognised form)")
+        if ok:
+            ctx.ok(rid, gen, _stmt(node), f"`{shown}`: the {what} is printed so that it reads back unchanged ({why})", label=label)
+        else:
+            ctx.violation(rid, gen, _stmt(node), f"`{shown}`: {why}: auto-07p starts the continuation from a rounded {what}, not from "
+                                                 f"the model's", label=label)
+    ctx.require(n >= 2, f"{rid}: expected the STPNT lines `args(k) = <value>` and `y(i) = <value>`, found {n}")
+    # constants files: every number goes through a plain hole
+    b = _m(ctx, "_build_auto_constants_file")
+    Sb = Scope(ctx, _callee_view(ctx, b))
+    bad, seen = None, 0
+    for node, text, holes in templates_spliced(Sb, Sb.f.node):
+        if not holes or not isinstance(node, ast.JoinedStr) and not isinstance(node, (ast.Call, ast.BinOp)):
+            continue
+        seen += 1
+        ok, why = text_value_preservation(ctx, Sb, node)
+        if ok is False and bad is None:
+            bad = (node, why)
+        elif ok is None:
+            raise AnalysisError(f"{rid}: {b.qual}: cannot judge how `{ast.unparse(node)[:60]}` prints its values ({why})")
+    ctx.require(seen >= 1, f"{rid}: no formatted line found in _build_auto_constants_file")
+    if bad:
+        ctx.violation(rid, b, _stmt(bad[0]), f"c.* file: {bad[1]}: auto-07p reads a rounded constant", label="constants printed value-preservingly")
+    else:
+        ctx.ok(rid, b, b.node, f"the {seen} formatted lines of the c.* file print their values through plain holes",
+               label="constants printed value-preservingly")
+
+
 RULES = [
     # today: 20 (9 uses of the slot list in _generate_auto_files + 1 in the Jacobian block, 5 slot-bearing templates, 3 hand-over
     # tables, 2 chain links); the floor leaves room for two uses to turn into something else, the categories are required separately
@@ -2001,5 +2053,6 @@ RULES = [
     ("C18-R4", r4_time_slot, 4),
     ("C18-R5", r5_slot_arithmetic, 2),
     ("C18-R6", r_str_membership, 1),
+    ("C18-R8", r8_values_printed_value_preservingly, 3),     # STPNT args(k), STPNT y(i), c.* lines
     ("C18-R7", r7_export_state_is_per_instance, 5),      # declaration table, op-call table, code lines, imports, helper functions
 ]
